@@ -225,6 +225,20 @@ def history(rng, rep, budget, fails, jobs):
             rep.count("ls:%d" % n)
             if len(lines) != n or cli["rc"] != 0:
                 fails.append(dict(what="`ls` printed %d lines (exit %d) for %d objects" % (len(lines), cli["rc"], n), history=hist))
+            # `ls -o <pattern>`: exactly the objects whose id the pattern matches, also for patterns made of alternatives only
+            for g in ["obj-*", "{obj-0,obj-1}", "obj-{0,1,7}", "obj-[01]", "*0", "obj-0", "nope", "{obj-0,nope}", "obj-\\0", "{x"]:
+                for staged_l in (False, True):
+                    lg = pair.live.ask(("lsstaged %s" if staged_l else "ls %s") % hx(g))
+                    cg = pair.sb.run(["ls", "-o"] + (["-S"] if staged_l else []) + [g])
+                    rep.evaluations += 1
+                    rep.classes.add("ls-o|%s|%s|rc%d" % (g, "S" if staged_l else "", cg["rc"]))
+                    if lg.startswith("ok "):
+                        want_ids = sorted(o_[0] for o_ in json.loads(lg[3:])["objects"])
+                        got_ids = sorted(l.strip() for l in cg["out"].decode("utf-8", "replace").split("\n") if l.strip())
+                        if cg["rc"] != 0 or got_ids != want_ids:
+                            fails.append(dict(what="`ls -o%s %s` (exit %d) lists %r, the library selects %r" % (" -S" if staged_l else "", g, cg["rc"], got_ids, want_ids), history=hist[-6:]))
+                    elif cg["rc"] == 0:
+                        fails.append(dict(what="`ls -o%s %s` exits 0, the library rejects the pattern: %s" % (" -S" if staged_l else "", g, lg[:60]), history=hist[-6:]))
             for o, _v in json.loads(lib[3:])["objects"]:
                 st = pair.live.ask("ver %s -" % hx(o))
                 c2 = pair.sb.run(["ls", o])
